@@ -574,3 +574,122 @@ Proof.
   - subst x'. exists []. cbn [x_outs x1]. rewrite app_nil_r. split; [reflexivity|]. split; [apply Nat.le_0_l|].
     split; [exact VR|]. cbv zeta. intros o [].
 Qed.
+
+(* ================================================================== concrete instances *)
+Definition hop_of (c : cfg) (ruri : string) (routes : list string) (to : string) : hop :=
+  choose_hop c ex_from (msg_of (req ruri [] routes to [])).
+Definition cfgA := ex_cfg false true false.     (* with a default static route *)
+Definition cfgB := ex_cfg false false false.    (* without *)
+Definition dests (l : list (dest * string)) : list dest := map fst l.
+
+(* (1) Route: own entry by alias (default port) then the next hop with explicit port and transport;
+   own entry by address and explicit port, next hop by name with default port and transport *)
+Example ex_hop_own_next :
+  hop_of cfgA "sip:bob@svc.example.com" ["Route: <sip:proxy.example.com;lr>, <sip:10.0.0.9:5070;transport=tcp;lr>"%string]
+         "<sip:bob@exact.example.com>" = HopAddr (s2b "10.0.0.9") 5070 (s2b "tcp") /\
+  hop_of cfgA "sip:bob@svc.example.com" ["Route: <sip:10.0.0.1:5060;lr>"; "Route: <sip:next.example.com;lr>"]%string
+         "<sip:bob@exact.example.com>" = HopAddr (s2b "next.example.com") 5060 (s2b "udp").
+Proof. vm_compute. split; reflexivity. Qed.
+(* near misses are next hops, not own entries *)
+Example ex_hop_near_miss :
+  hop_of cfgA "sip:bob@svc.example.com" ["Route: <sip:10.0.0.1:5061;lr>, <sip:10.0.0.9;lr>"%string] "<sip:b@x.example>"
+    = HopAddr (s2b "10.0.0.1") 5061 (s2b "udp") /\
+  hop_of cfgA "sip:bob@svc.example.com" ["Route: <sip:10.0.0.77:5060;lr>, <sip:10.0.0.9;lr>"%string] "<sip:b@x.example>"
+    = HopAddr (s2b "10.0.0.77") 5060 (s2b "udp").
+Proof. vm_compute. split; reflexivity. Qed.
+(* (2) static routes: exact, wildcard, default; also when only the own Route entry was present *)
+Example ex_hop_static :
+  hop_of cfgA "sip:bob@svc.example.com" [] "<sip:bob@exact.example.com>" = HopAddr (s2b "10.0.2.1") 5070 (s2b "udp") /\
+  hop_of cfgA "sip:bob@svc.example.com" [] "Bob <sip:bob@a.wild.example.com>;tag=9" = HopAddr (s2b "10.0.2.2") 5060 (s2b "tcp") /\
+  hop_of cfgA "sip:bob@svc.example.com" [] "<sip:bob@other.example.org>" = HopAddr (s2b "10.0.2.3") 5090 (s2b "udp") /\
+  hop_of cfgA "sip:bob@svc.example.com" ["Route: <sip:proxy.example.com:5060;lr>"%string] "<sip:bob@exact.example.com>"
+    = HopAddr (s2b "10.0.2.1") 5070 (s2b "udp").
+Proof. vm_compute. repeat split. Qed.
+(* (3) service match: literal host, regular expression only, user@host, urn, listener address:port;
+   a foreign Request-URI is dropped *)
+Example ex_hop_backend :
+  hop_of cfgB "sip:bob@svc.example.com" [] "<sip:bob@other.example.org>" = HopBackend /\
+  hop_of cfgB "sip:room42@conf.example.com" [] "<sip:bob@other.example.org>" = HopBackend /\
+  hop_of cfgB "sip:alice@users.example.com" [] "<sip:bob@other.example.org>" = HopBackend /\
+  hop_of cfgB "urn:service:sos" [] "<sip:bob@other.example.org>" = HopBackend /\
+  hop_of cfgB "sip:anyone@10.0.0.1:5060" [] "<sip:bob@other.example.org>" = HopBackend /\
+  hop_of cfgB "sip:anyone@10.0.0.1" [] "<urn:service:x>" = HopBackend /\
+  hop_of cfgB "sip:bob@users.example.com" [] "<sip:bob@other.example.org>" = HopNone /\
+  hop_of cfgB "sip:anyone@10.0.0.1:5070" [] "<sip:bob@other.example.org>" = HopNone /\
+  hop_of cfgB "tel:+15550100" [] "<sip:bob@other.example.org>" = HopNone.
+Proof. vm_compute. repeat split. Qed.
+(* outside the quantifier: a tel: entry after the own one *)
+Example ex_hop_out :
+  hop_of cfgA "sip:bob@svc.example.com" ["Route: <sip:proxy.example.com;lr>, <tel:+15550100>"%string] "<sip:bob@exact.example.com>"
+    = HopOut /\
+  effective_hop cfgA ex_from (msg_of (req "sip:bob@svc.example.com" []
+      ["Route: <sip:proxy.example.com;lr>, <tel:+15550100>"%string] "<sip:bob@exact.example.com>" []))
+    = HopAddr (s2b "10.0.2.1") 5070 (s2b "udp").
+Proof. vm_compute. split; reflexivity. Qed.
+
+(* end to end, one datagram each: where the message goes *)
+Example ex_run_route_tcp :    (* transport=tcp next hop: a connection is dialled and written *)
+  dests (run1 all_fixed cfgA [(s2b "10.0.0.9", 5070)]
+           (req "sip:bob@svc.example.com" [] ["Route: <sip:proxy.example.com;lr>, <sip:10.0.0.9:5070;transport=TCP;lr>"%string]
+                "<sip:bob@exact.example.com>" []))
+  = [DDial (s2b "10.0.0.9") 5070 0; DConn 0].
+Proof. vm_compute. reflexivity. Qed.
+Example ex_run_static : dests (run1 all_fixed cfgA [] (req "sip:bob@svc.example.com" [] [] "<sip:bob@exact.example.com>" []))
+  = [DUdp (s2b "10.0.2.1") 5070].
+Proof. vm_compute. reflexivity. Qed.
+(* c. the pool: the rotation holds 10.0.1.1:5080, 10.0.1.2:5080; index 0 -> element 1 *)
+Example ex_run_backend : dests (run1 all_fixed cfgB [] (req "sip:room42@conf.example.com" [] [] "<sip:bob@other.example.org>" []))
+  = [DUdp (s2b "10.0.1.2") 5080].
+Proof. vm_compute. reflexivity. Qed.
+Example ex_run_backend_empty_pool :
+  let c := {| c_name := c_name cfgB; c_keep_next_hop := false; c_dialog_timeout := 3600; c_routes := []; c_hosts := [];
+              c_listens := [{| lc_addr := s2b "10.0.0.1"; lc_udp := 5060; lc_tcp := 0; lc_backends := []; lc_dynamic := true;
+                               lc_no_received := false; lc_def_route := false; lc_must_rr := false |}] |} in
+  run1 all_fixed c [] (req "sip:room42@conf.example.com" [] [] "<sip:bob@other.example.org>" []) = [].
+Proof. vm_compute. reflexivity. Qed.
+Example ex_run_dropped : run1 all_fixed cfgB [] (req "sip:bob@users.example.com" [] [] "<sip:bob@other.example.org>" []) = [].
+Proof. vm_compute. reflexivity. Qed.
+(* d. unsupported transports, any case *)
+Example ex_run_unsupported :
+  run1 all_fixed cfgA [] (req "sip:bob@svc.example.com" [] ["Route: <sip:10.0.0.9:5070;transport=sctp;lr>"%string] "<sip:b@x.example>" []) = [] /\
+  run1 all_fixed cfgA [] (req "sip:bob@svc.example.com" [] ["Route: <sip:10.0.0.9:5070;transport=TLS;lr>"%string] "<sip:b@x.example>" []) = [] /\
+  dests (run1 all_fixed cfgA [] (req "sip:bob@svc.example.com" [] ["Route: <sip:10.0.0.9:5070;transport=UdP;lr>"%string] "<sip:b@x.example>" []))
+    = [DUdp (s2b "10.0.0.9") 5070].
+Proof. vm_compute. repeat split. Qed.
+
+(* ---- where the fixes record matters (defect B1: findClientTransport reused the listener's UDP
+   socket for ANY next hop whose host was learned through a UDP listener).  The request comes
+   from 10.0.0.5 over UDP and its Route names 10.0.0.5:5070 with transport=tcp; 10.0.0.5 accepts
+   TCP connections on 5070. *)
+Definition b1_fixes : fixes :=
+  {| fx_wiring := true; fx_udp_via_listener := false; fx_indialog_invite := true; fx_bracket_host := true |}.
+Definition b1_req : list string :=
+  req "sip:bob@elsewhere.example" [] ["Route: <sip:10.0.0.5:5070;transport=tcp;lr>"%string] "<sip:bob@elsewhere.example>" [].
+Theorem C03_b1_legacy_refuted :
+  effective_hop cfgA ex_from (msg_of b1_req) = HopAddr (s2b "10.0.0.5") 5070 (s2b "tcp") /\
+  dests (run1 b1_fixes cfgA [(s2b "10.0.0.5", 5070)] b1_req) = [DUdp (s2b "10.0.0.5") 5070] /\
+  dests (run1 all_fixed cfgA [(s2b "10.0.0.5", 5070)] b1_req) = [DDial (s2b "10.0.0.5") 5070 0; DConn 0].
+Proof. vm_compute. repeat split. Qed.
+
+(* the hypotheses of the process_message-level theorems are satisfiable: a request, processed *)
+Example ex_c03_hypotheses :
+  let c := cfgA in let lc := ex_lc false in
+  let m0 := msg_of b1_req in
+  let x := {| x_learned := []; x_p := init_pstate c 0 lc; x_conns := []; x_world := {| w_tcp_listeners := []; w_next_conn := 0 |};
+              x_outs := [] |} in
+  is_request m0 = true /\
+  is_ok (process_message (ex_env all_fixed c 0) (s2b "10.0.0.5") 5060 ex_from true None m0 x) = true.
+Proof. vm_compute. split; reflexivity. Qed.
+
+Print Assumptions C03_at_most_one.
+Print Assumptions C03_at_most_one_udp.
+Print Assumptions C03_at_most_one_tcp.
+Print Assumptions C03_choice.
+Print Assumptions C03_choice_outputs.
+Print Assumptions C03_non_sip_route.
+Print Assumptions C03_backend_member.
+Print Assumptions C03_backend_member_event.
+Print Assumptions C03_unsupported_transport_dropped.
+Print Assumptions C03_unsupported_transport_event.
+Print Assumptions C06_relayed_request.
+Print Assumptions C03_b1_legacy_refuted.
